@@ -70,7 +70,8 @@ def gen_cases(tier, seed):
         for ctx in range(0, 4):
             cases.append({"a": a, "b": b, "ctx": ctx, "emit": ctx == 0})
     # random larger texts with odd characters (CR, specials, non-ASCII, form feed)
-    words = ["fn main() {", "}", "    let x = 1;", "<a & 'b' \"c\">", "x\r", "", "  ", "é中", "1 2 3", "\x0c"]
+    words = ["fn main() {", "}", "    let x = 1;", "<a & 'b' \"c\">", "x\r", "", "  ", "é中", "1 2 3", "\x0c",
+             "a &lt; b &amp;&amp; c", "&quot;q&quot; &apos; &gt;", "&amp;amp; &#60; &lt", "&& &mut x"]
     nrand = 300 if tier == "quick" else 3000
     for _ in range(nrand):
         la = [rnd.choice(words) for _ in range(rnd.randint(0, 9))]
